@@ -546,3 +546,25 @@ func cmpConstRight(bo *ssa.BinOp) (token.Token, ssa.Value, ssa.Value) {
 	}
 	return bo.Op, bo.X, bo.Y
 }
+
+// reachesBlock: `to` is reachable from `from` in the function's control-flow graph.
+func reachesBlock(from, to *ssa.BasicBlock) bool {
+	seen := map[*ssa.BasicBlock]bool{}
+	var walk func(b *ssa.BasicBlock) bool
+	walk = func(b *ssa.BasicBlock) bool {
+		if b == to {
+			return true
+		}
+		if seen[b] {
+			return false
+		}
+		seen[b] = true
+		for _, s := range b.Succs {
+			if walk(s) {
+				return true
+			}
+		}
+		return false
+	}
+	return walk(from)
+}
